@@ -91,7 +91,7 @@ def run_property(pid, tier, seed):
                 r2.secs += results[i].secs
                 results[i] = r2
     kf = load_known_findings()
-    known = [k for k in kf.get("open", []) if k["property"] == pid]
+    known = [k for k in kf.get("open", []) if pid in k.get("properties", [k.get("property")])]
     violations, unknowns, vacuous, known_hit = [], [], [], []
     per = []
     for r in results:
@@ -179,13 +179,20 @@ def run_property(pid, tier, seed):
             exit_code = 1
     for k, r in known_hit:
         print("KNOWN-FINDING: property=%s %s [%s]" % (pid, k["what"], r.ob.name))
-    seen_k = {id(k) for k, _ in known_hit}
-    for k in known:
-        if k.get("reported_by") == "bounded":
-            continue
-        if id(k) not in seen_k and k.get("obligation"):
-            # the finding no longer reproduces deductively - say so (not an error)
-            print("NOTE: known finding %s did not reproduce as a failed obligation" % k["id"])
+    # recorded findings are re-demonstrated on the real code on every run (and excluded from the exploration)
+    probed = []
+    if known:
+        from pyvc import standin
+        with standin.Overlay() as ov:
+            for k in known:
+                if not k.get("probe"):
+                    continue
+                res = standin.run_module(ov, "oracles.probes", [k["probe"]], timeout=120)
+                probed.append({"id": k["id"], "manifests": res.get("manifests"), "detail": res.get("detail")})
+                if res.get("manifests"):
+                    print("KNOWN-FINDING: property=%s %s: %s [%s]" % (pid, k["id"], k["what"], res.get("detail")))
+                else:
+                    print("NOTE: known finding %s no longer manifests (%s)" % (k["id"], res.get("detail")))
     if exit_code == 0 and (unknowns or vacuous or undecided):
         real_und = [(c, w) for (c, w) in undecided if not w.startswith("CRASH")]
         allowed = getattr(propmod, "ALLOWED_UNDECIDED", ())
@@ -229,7 +236,8 @@ def run_property(pid, tier, seed):
             "verdicts_reused_for_identical_queries": stats.get("cache_hits", 0),
             "covers": {"checked": len(covers), "satisfiable": sum(1 for r in covers if r.status == "covered")},
             "undecided": [{"target": driver.contract_name(c), "reason": w.splitlines()[0]} for c, w in undecided if c],
-            "known_findings_reproduced": [k["id"] for k, _ in known_hit],
+            "known_findings_reproduced": [k["id"] for k, _ in known_hit] + [p["id"] for p in probed if p["manifests"]],
+            "known_finding_probes": probed,
             "bounded_standins": bounded,
             "extraction_drops": EXTRACTION_DROPS,
             "explanation": meta.get("explanation", ""),
